@@ -128,6 +128,39 @@ def error_scripts(rng, n):
     return out
 
 
+def reconfig_scripts(rng, n):
+    """C13, last clause: a handler that reconfigures Watchexec from inside its own invocation - path set,
+    watcher kind, throttle, the error handler and the action handler itself; an error handler that replaces
+    itself - neither deadlocks nor disturbs the invocation in progress; later events and errors are handled."""
+    out, k = [], 0
+    for sync in (False, True):
+        for pos in (1, 2, 3):
+            for hold in ((0,) if sync else (0, 40)):
+                for arg in (0, 30):
+                    evs = [ev(i, 20 * i, hold=hold, act="reconfig" if i == pos else "none", arg=arg) for i in range(1, 5)]
+                    evs.append(ev(5, 400, verdict="error", onerr="replace"))
+                    evs.append(ev(6, 420, verdict="error"))
+                    evs.append(ev(7, 600))
+                    out.append(script("c%05d" % k, evs, "handler-reconfig-grid", throttle=0, sync=sync))
+                    k += 1
+    for _ in range(n):
+        sync = rng.random() < 0.3
+        m = rng.randrange(2, 9)
+        evs, t = [], 0
+        for i in range(1, m + 1):
+            t += rng.choice([0, 10, 30, 80])
+            v = rng.choice(["pass", "pass", "error", "reject"])
+            e = ev(i, t, prio=rng.choice([1, 1, 2, 3]), verdict=v, hold=0 if sync else rng.choice([0, 0, 30]),
+                   act=rng.choice(["none", "reconfig", "reconfig", "throttle"]) if v == "pass" else "none", arg=rng.choice([0, 20, 50]),
+                   onerr=rng.choice(["ignore", "replace", "replace"]) if v == "error" else "ignore")
+            evs.append(e)
+        evs.append(ev(m + 1, t + 300))
+        out.append(script("c%05d" % k, evs, "handler-reconfig", cap=rng.choice([2, 4096]), ecap=rng.choice([1, 64]),
+                          throttle=rng.choice([0, 30]), sync=sync))
+        k += 1
+    return out
+
+
 def dump(scripts, path):
     with open(path, "w") as f:
         for s in scripts:
